@@ -111,6 +111,9 @@ _c10 = {
     'c10_str_ws_eol_len2': {'obl': 'StrInput.skip_ws_to_eol==default.len2', 'kind': 'bounded', 'tier': 'thorough',
         'bound': 'every valid UTF-8 string of at most 2 bytes over the white-space alphabet, both SkipTabs settings', 'what': 'same, all strings up to 2 bytes (about 16 minutes)'},
 }
+_c10['c10_str_non_breakz_len4'] = {'obl': 'StrInput.skip_while_non_breakz==default.len4', 'kind': 'bounded', 'tier': 'quick',
+    'bound': 'every valid UTF-8 string of at most 4 bytes over {space, tab, #, LF, CR, a, NUL, a two-byte character}',
+    'what': 'StrInput::skip_while_non_breakz returns the same count (in characters) and leaves the same remaining input as the default method'}
 GROUPS['C10'] = [{'crate': 'saphyr-parser', 'appends': {'input/str.rs': 'strinput_harness.rs'}, 'timeout': 4000, 'harness_timeout': 1500, 'harnesses': _c10}]
 
 CACHE = os.environ.get('VERIF_CACHE') or os.path.join(ROOT, '.cache')
